@@ -1,5 +1,6 @@
 (* C03 - register banks update only at the clock edge, honouring stall and bubble. *)
 From HclV Require Import Base Expr Machine MachineSpec MachineProofs.
+From HclV Require TextLevelSpec TextLevelProofs.
 From HclV Require HistorySpec HistoryProofs.
 Open Scope string_scope.
 Open Scope N_scope.
@@ -57,3 +58,15 @@ Print Assumptions C03_bank_history.
 Theorem C03_history_hypotheses_hold_for_accepted_programs : HistorySpec.stmt_accepted_run_of.
 Proof. exact HistoryProofs.accepted_run_of_holds. Qed.
 Print Assumptions C03_history_hypotheses_hold_for_accepted_programs.
+
+(* ---- END TO END, from the program TEXT (TextLevelSpec.v / TextLevelProofs.v): the user's file (valid
+   UTF-8) after the compiled preamble, lexed with any Unicode classification, parsed with the compiled
+   tier table, built with the compiled component table; states = those reachable by loading an
+   image and stepping.  No hypothesis a user cannot check by reading the file. ------------------- *)
+Theorem C03_text_level :
+  TextLevelSpec.stmt_text_run_is_run_of /\ TextLevelSpec.stmt_text_run_states_reachable /\ TextLevelSpec.stmt_text_bank_history.
+Proof.
+  split; [exact TextLevelProofs.text_run_is_run_of_holds |].
+  split; [exact TextLevelProofs.text_run_states_reachable_holds | exact TextLevelProofs.text_bank_history_holds].
+Qed.
+Print Assumptions C03_text_level.
